@@ -236,6 +236,46 @@ Definition get_lineno (node_line : Z) (ancestor : option (Z * Z)) : Z :=
   if negb (node_line =? 0) then node_line
   else match ancestor with Some (pl, nl) => pl - 1 + nl | None => 0 end.
 
+(* get_lineno on concrete nodes: a docutils node is seen through its `line` (0 stands for None / 0: only its truth value
+   is used) and its `rawsource`; `ancs` are the ancestors, innermost first.  Python string primitives:
+     find_sub sub s   = s.find(sub) as an option (sub in s <-> Some; s.index(sub) = that index)
+     count_nl (firstn i s) = s[:i].count('\n') = s.count('\n', 0, i)   for 0 <= i                                    *)
+Record dnode := { n_line : Z; n_raw : text }.
+
+Fixpoint prefix_eqb (p s : text) : bool :=
+  match p, s with
+  | [], _ => true
+  | x :: p', y :: s' => N.eqb x y && prefix_eqb p' s'
+  | _ :: _, [] => false
+  end.
+
+Fixpoint find_sub (sub s : text) : option nat :=
+  if prefix_eqb sub s then Some O
+  else match s with
+       | [] => None
+       | _ :: s' => option_map S (find_sub sub s')
+       end.
+
+Fixpoint first_with_line (ancs : list dnode) : option dnode :=
+  match ancs with
+  | [] => None
+  | a :: r => if negb (n_line a =? 0) then Some a else first_with_line r
+  end.
+
+Definition newlines_before (anc_raw node_raw : text) : Z :=
+  match anc_raw, node_raw with
+  | _ :: _, _ :: _ =>
+    match find_sub node_raw anc_raw with
+    | Some i => count_nl (firstn i anc_raw)
+    | None => 0
+    end
+  | _, _ => 0
+  end.
+
+Definition get_lineno_chain (node : dnode) (ancs : list dnode) : Z :=
+  get_lineno (n_line node)
+             (option_map (fun a => (n_line a, newlines_before (n_raw a) (n_raw node))) (first_with_line ancs)).
+
 (* linker._EpydocLinker._resolve_identifier_xref: reporting_obj.report(message, 'resolve_identifier_xref', lineno) *)
 Definition xref_report (verbosity : Z) (st : sys_state) (reporting_obj : obj) (message : text) (lineno : Z)
   : sys_state :=
@@ -277,6 +317,7 @@ Definition one_run (verbosity : Z) (wae : bool) (header : text) (o : obj) (ps : 
      6 verbosity wae header violations ( (section (name ...)) ... )
                                                -> ( code violations number-of-printed-lines )
      8 docutils-line-opt                       -> ( stored-opt offset )      (rst_reader_perr)
+    13 ( (line rawsource) ... )  node first, then its ancestors innermost first   -> get_lineno_chain
     12 docutils-line                           -> rst_field_lineno
     11 node-line ancestor-opt                  -> get_lineno        ancestor-opt := () | ( (line newlines) )
     10 own-source-path-opt module-fullname     -> description
@@ -350,6 +391,11 @@ Definition run (s : sexp) : sexp :=
   | 8 =>
     let e := rst_reader_perr [] (to_optZ (nth_s 1 s)) in
     L [of_option A (pe_stored e); A (perr_offset e)]
+  | 13 =>
+    match map (fun p => {| n_line := to_Z (nth_s 0 p); n_raw := to_text (nth_s 1 p) |}) (to_list (nth_s 1 s)) with
+    | node :: ancs => A (get_lineno_chain node ancs)
+    | [] => bad_input
+    end
   | 12 => A (rst_field_lineno (to_Z (nth_s 1 s)))
   | 11 => A (get_lineno (to_Z (nth_s 1 s))
                         (to_option (fun p => (to_Z (nth_s 0 p), to_Z (nth_s 1 p))) (nth_s 2 s)))
